@@ -51,8 +51,9 @@ run_demo() { # prints PASS/FAIL per demo test target
     for g in $files; do
       crate=$(echo $g | cut -d/ -f1); name=$(basename $g .rs)
       case $crate in penguin) pkg=rusty-penguin;; *) pkg=$crate;; esac
+      sel="-p $pkg"; [ -f "$SD/demo_workspace" ] && sel="--workspace"
       extra=""; [ -f "$SD/demo_release" ] && extra="--release"; grep -q "release" "$SD/DEMO.md" 2>/dev/null && [ "$crate" = penguin-mux ] && grep -q "c09" <<<"$name" && extra="--release"
-      if ! unshare -n bash -c "ip link set lo up; CARGO_TARGET_DIR=$TGT timeout 900 cargo test -p $pkg --test $name --offline $extra -j 8" >/tmp/sv-demo.log 2>&1; then all=FAIL; fi
+      if ! unshare -n bash -c "ip link set lo up; CARGO_TARGET_DIR=$TGT timeout 900 cargo test $sel --test $name --offline $extra -j 8" >/tmp/sv-demo.log 2>&1; then all=FAIL; fi
     done
   done < /tmp/sv-newfiles.txt
   echo $all
